@@ -286,7 +286,7 @@ Definition extract_name (d : string) : string :=
   end.
 
 (* ------------------------------------------------------------------------------------------------- *)
-(* legacy modifiers (modifier_parser.py); amounts in exact ticks, dates as y*10000+m*100+d *)
+(* legacy modifiers (modifier_parser.py); amounts in exact ticks of 1/512, dates as y*10000+m*100+d *)
 
 Inductive acond := AGt (v : Z) | AGe (v : Z) | ALt (v : Z) | ALe (v : Z) | AEq (v : Z) | ARange (lo hi : Z).
 Inductive dcond := DEq (d : Z) | DRange (lo hi : Z) | DMonth (m : Z) | DRelative (passes : bool).
@@ -295,7 +295,8 @@ Inductive dcond := DEq (d : Z) | DRange (lo hi : Z) | DMonth (m : Z) | DRelative
 Definition eval_acond (a : Z) (c : acond) : bool :=
   match c with
   | AGt v => Z.ltb v a | AGe v => Z.leb v a | ALt v => Z.ltb a v | ALe v => Z.leb a v
-  | AEq v => Z.eqb a v        (* abs(a - v) < 0.01 on tick-exact values *)
+  | AEq v => Z.ltb (Z.abs (a - v) * 100) 512     (* abs(a - v) < 0.01: the difference of two ticked amounts is exact, and
+                                                    no multiple of 1/512 lies between 1/100 and the double 0.01 *)
   | ARange lo hi => (Z.leb lo a && Z.leb a hi)%bool
   end.
 
